@@ -199,6 +199,90 @@ def h_recon(H):
     S.explore(body)
 
 
+# ----------------------------------------------------------------------------- metadata: per-shank AP metadata and its restoration
+@harness(PROPERTY, "metadata_split_and_restore", functions=["neuropixel:NP2Converter._writemetadata_ap", "neuropixel:NP2Reconstructor.write_metadata"],
+         clause="reassembling reproduces the original metadata field for field (apart from one added provenance flag); each shank's AP metadata declares the channels actually written")
+def h_meta_roundtrip(H):
+    S = H.session("meta.ap")
+
+    def body(it):
+        fs_ = fsmodel.GhostFS()
+        it.session.ghost_fs = fs_
+        napch, origsize, recsize = z3.Ints("napch origsize reconstructed_size")
+        dur = z3.Real("dur")
+        it.ctx.assume(z3.And(napch >= 1, origsize >= 0))
+        # the original metadata: the fields the code rewrites + an arbitrary other field that must survive untouched
+        other = z3.Real("someOtherField")
+        orig = {"typeThis": "imec", "imSampRate": 30000.0, "acqApLfSy": [SV(z3.ToReal(napch)), 0.0, 1.0], "snsApLfSy": [SV(z3.ToReal(napch)), 0.0, 1.0], "nSavedChans": SV(z3.ToReal(napch + 1)),
+                "fileSizeBytes": SV(z3.ToReal(origsize)), "snsSaveChanSubset": SV(z3.Int("orig_subset_token")), "fileTimeSecs": SV(dur), "someOtherField": SV(other), "imDatPrb_type": 24.0}
+        keys0 = list(orig)
+        shank_info = {}
+        lens, sizes = [], []
+        for s_ in range(2):
+            m = z3.Int(f"nchn{s_}")
+            it.ctx.assume(m >= 2)
+            pth = fsmodel.GhostPath(fs_, ("raw", f"probe00{chr(97 + s_)}"), "x.imec0.ap.bin")
+            sz = z3.Int(f"apsize{s_}")
+            fs_.exists[pth.key] = True
+            fs_.size[pth.key] = SV(sz)
+            shank_info[f"shank{s_}"] = {"chns": A.fresh_array(f"chns{s_}", "int64", (m,), ranged=False), "ap_file": pth}
+            lens.append(m)
+            sizes.append(sz)
+        written = {}
+        it.session.contracts[spikeglx.write_meta_data] = lambda it_, a, k: written.__setitem__(a[1].key, a[0])
+        it.session.contracts[spikeglx._get_savedChans_subset] = lambda it_, a, k: ("SUBSET", a[0])
+        conv = SObj(neuropixel.NP2Converter, sr=SObj(spikeglx.Reader, meta=orig), shank_info=shank_info, np_version="NP2.4")
+        run_function(it, neuropixel.NP2Converter._writemetadata_ap, [conv])
+        ok = len(written) == 2
+        it.ctx.oblige("meta_ap.one_file_per_shank", z3.BoolVal(ok), "post")
+        if not ok:
+            return
+        for s_ in range(2):
+            mp = shank_info[f"shank{s_}"]["ap_file"].with_suffix(".meta")
+            md = written.get(mp.key)
+            it.ctx.oblige(f"meta_ap.path.{s_}", z3.BoolVal(md is not None), "post", "written next to the shank's AP file")
+            if md is None:
+                return
+            n = lens[s_]
+            it.ctx.oblige(f"meta_ap.counts.{s_}", z3.And(term(md["snsApLfSy"][0]) == n - 1, term(md["acqApLfSy"][0]) == n - 1, term(md["snsApLfSy"][2]) == 1, term(md["nSavedChans"]) == n), "post",
+                          "channel counts of this shank: its AP channels + the sync channel")
+            it.ctx.oblige(f"meta_ap.size.{s_}", term(md["fileSizeBytes"]) == sizes[s_], "post", "fileSizeBytes is the size of the AP file written")
+            it.ctx.oblige(f"meta_ap.provenance.{s_}", z3.BoolVal(md.get("NP2.4_shank") == s_ and md.get("original_meta") is False and isinstance(md.get("snsSaveChanSubset_orig"), tuple)
+                                                                   and md["snsSaveChanSubset_orig"][1] is shank_info[f"shank{s_}"]["chns"]), "post",
+                          "records the shank number, that this is derived metadata, and the original channel list of this shank")
+            it.ctx.oblige(f"meta_ap.other_fields_kept.{s_}", z3.And(term(md["someOtherField"]) == other, term(md["fileTimeSecs"]) == dur, z3.BoolVal(md["imSampRate"] == 30000.0 and md["imDatPrb_type"] == 24.0)), "post")
+        it.ctx.oblige("meta_ap.source_untouched", z3.And(term(orig["snsApLfSy"][0]) == napch, term(orig["nSavedChans"]) == napch + 1, term(orig["fileSizeBytes"]) == origsize, z3.BoolVal(list(orig) == keys0)), "post",
+                      "the reader's own metadata is not modified (deep copy)")
+        # ---- restoration from shank 0's metadata (what NP2Reconstructor.write_metadata does), for a reconstructed file of the original size
+        import copy as _copy
+        first = written[shank_info["shank0"]["ap_file"].with_suffix(".meta").key]
+        save = fsmodel.GhostPath(fs_, ("raw", "probe00"), "x.imec0.ap.bin")
+        fs_.exists[save.key] = True
+        fs_.size[save.key] = SV(origsize)                       # proved separately: the reconstructed binary has the original bytes (harness reconstruct_window)
+        fs_.exists[save.with_suffix(".meta").key] = False
+        restored = {}
+        it.session.contracts[spikeglx.read_meta_data] = lambda it_, a, k: _copy.copy({k_: (list(v) if isinstance(v, list) else v) for k_, v in first.items()})
+        it.session.contracts[spikeglx.write_meta_data] = lambda it_, a, k: restored.__setitem__(a[1].key, a[0])
+        rec = SObj(neuropixel.NP2Reconstructor, save_file=save, shank_info={"shank0": {"ap_file": shank_info["shank0"]["ap_file"]}}, nch=SV(napch + 1), np_version="NP2.4")
+        run_function(it, neuropixel.NP2Reconstructor.write_metadata, [rec])
+        md = restored.get(save.with_suffix(".meta").key)
+        it.ctx.oblige("meta_restore.written", z3.BoolVal(md is not None), "post")
+        if md is None:
+            return
+        it.ctx.oblige("meta_restore.keys", z3.BoolVal(sorted(md) == sorted(keys0 + ["original_meta"])), "post",
+                      "every field of the original is back, the per-shank provenance fields are gone, the one added flag (original_meta) remains")
+        same = [term(md["snsApLfSy"][k_]) == term(orig["snsApLfSy"][k_]) for k_ in range(3)] + [term(md["acqApLfSy"][k_]) == term(orig["acqApLfSy"][k_]) for k_ in range(3)]
+        same += [term(md["nSavedChans"]) == napch + 1, term(md["fileSizeBytes"]) == origsize, term(md["someOtherField"]) == other, term(md["fileTimeSecs"]) == dur,
+                 z3.BoolVal(md["imSampRate"] == 30000.0 and md["typeThis"] == "imec" and md["imDatPrb_type"] == 24.0)]
+        it.ctx.oblige("meta_restore.field_for_field", z3.And(*same), "post", "channel counts, saved-channel count, size and every untouched field equal the original's")
+        from pyvc.models import SymStr
+        sub = md["snsSaveChanSubset"]
+        okf = isinstance(sub, SymStr) and len(sub.parts) == 2 and sub.parts[0] == "0:" and isinstance(sub.parts[1], SV)
+        it.ctx.oblige("meta_restore.subset_covers_all_channels", z3.And(z3.BoolVal(okf), term(sub.parts[1]) == napch if okf else z3.BoolVal(False)), "post",
+                      "snsSaveChanSubset is restored to the full range '0:<last channel>' (what SpikeGLX writes when all channels are saved)")
+    S.explore(body)
+
+
 # ----------------------------------------------------------------------------- bounded end-to-end on real files
 FIXM = os.path.join(os.path.dirname(spikeglx.__file__), "tests", "fixtures", "np2split", "NP24_meta", "_spikeglx_ephysData_g0_t0.imec0.ap.meta")
 
